@@ -55,6 +55,10 @@ def pool(ctx, n):
              [G("os.path", "exists"), O("STOP")],
              [G("torch.hub", "load"), O("STOP")], [G("torch.hub.x", "load"), O("POP"), G("torch.hub", "load"), O("STOP")]]
     out = [assemble(h) for h in hand]
+    # pairs of DIFFERENT pickles that share a name (a stdlib attribute called like a builtin, then the builtin called): what
+    # one pickle binds must not colour the analysis of another analysed later in the same process
+    out += [b"cimportlib\n__import__\n.", b"c__builtin__\n__import__\n(Vos\ntR.", b"cfileinput\ninput\n.", b"c__builtin__\ninput\n(tR.",
+            b"cverif_sink\nfrozenset\n.", pickle.dumps(frozenset({1, 2}), 4), pickle.dumps(frozenset({1, 2}), 2)]
     vals = [[decimal.Decimal("1.5"), decimal.Decimal("1.5")], [fractions.Fraction(1, 2)] * 3,
             {"a": {1, 2, 3}, "b": frozenset("xyz")}, {"k%d" % i: i for i in range(12)},
             [genvalues.verif_nat.Plain(a=1), genvalues.verif_nat.Plain(a=1), genvalues.verif_nat.Plain(a=1)],
